@@ -323,9 +323,14 @@ fn dfs(w: &World, b: &Bounds, skew: &[u64], trail: &mut Vec<Ev>, dups: usize, se
 }
 
 pub fn run(tier: Tier) -> Stats {
+    // thorough = everything quick explores (sharp drivers, 14 events) + the full alphabet
+    let mut total = if tier.is_thorough() { run_tier(Tier::Quick) } else { Stats::default() };
+    total.merge(run_tier(tier));
+    total
+}
+
+fn run_tier(tier: Tier) -> Stats {
     let mut total = Stats::default();
-    let started = std::time::Instant::now();
-    let _ = &started;
     let configs: Vec<(usize, Vec<u64>)> = if tier.is_thorough() {
         vec![(2, vec![0, 0]), (2, vec![0, 20]), (2, vec![20, 0]), (3, vec![0, 20, 0])]
     } else {
